@@ -81,11 +81,15 @@ def find_logits(ex, fi):
 
 def resolve(e, ex, skip=0):
     """definition of a name on the executed path (skip = how many most recent definitions to ignore)"""
-    if isinstance(e, ast.Name):
+    seen = 0
+    while isinstance(e, ast.Name) and seen < 8:
         h = ex.def_history.get(e.id, [])
         if len(h) > skip:
-            return h[len(h) - 1 - skip]
-        return None
+            e = h[len(h) - 1 - skip]
+            skip = 0
+            seen += 1
+        else:
+            return None if seen == 0 else e
     return e
 
 
@@ -144,7 +148,7 @@ def run(ctx):
     ctx.trusted = ['numpy/scipy samplers and softmax', 'positive eps and sensitivity']
     n_sites = 0
     for spec in PRIMS:
-        fi = repo.func(spec['rel'], spec['q'])
+        fi = repo.nfunc(spec['rel'], spec['q'])
         ctx.analysed(fi)
         keys = sorted(spec['flags'])
         for combo in itertools.product(*[spec['flags'][k] for k in keys]):
@@ -211,7 +215,7 @@ def check_primitive(ctx, fi, spec, flags):
 
 
 def check_key_alignment(ctx):
-    fi = ctx.repo.func(MECH, 'Mechanism.exponential_mechanism')
+    fi = ctx.repo.nfunc(MECH, 'Mechanism.exponential_mechanism')
     qual, base = 'qualities', 'base_measure'
     comps = {}
     for s in walk_shallow(fi.node):
@@ -244,7 +248,7 @@ def check_key_alignment(ctx):
 
 
 def check_gem(ctx):
-    fi = ctx.repo.func(MECH, 'Mechanism.generalized_exponential_mechanism')
+    fi = ctx.repo.nfunc(MECH, 'Mechanism.generalized_exponential_mechanism')
     calls = [c for c in calls_in(fi.node) if U(c.func) == 'self.exponential_mechanism']
     if len(calls) != 1:
         raise AnalysisError('generalized_exponential_mechanism: expected one call of self.exponential_mechanism')
@@ -261,7 +265,7 @@ def check_gem(ctx):
 def check_helpers(ctx):
     repo = ctx.repo
     for name, sparam, kind in (('laplace_noise_scale', 'l1_sensitivity', 'laplace'), ('gaussian_noise_scale', 'l2_sensitivity', 'gauss')):
-        fi = repo.func(MECH, 'Mechanism.' + name)
+        fi = repo.nfunc(MECH, 'Mechanism.' + name)
         ctx.analysed(fi)
         for bounded in (True, False):
             def hook(call, ex):
@@ -305,7 +309,7 @@ def check_helpers(ctx):
                    construct='%s [bounded=%s]' % (U(stmt), bounded))
     check_best_noise(ctx)
     for name, dist in (('gaussian_noise', 'normal'), ('laplace_noise', 'laplace')):
-        fi = repo.func(MECH, 'Mechanism.' + name)
+        fi = repo.nfunc(MECH, 'Mechanism.' + name)
         ctx.analysed(fi)
         scale_p, size_p = fi.params[1], fi.params[2]
         rets = [r for r in walk_shallow(fi.node) if isinstance(r, ast.Return)]
@@ -327,7 +331,7 @@ def check_helpers(ctx):
 
 def check_best_noise(ctx):
     """best_noise_distribution: each sampler it hands out is bound to exactly the value its own scale helper returned"""
-    fi = ctx.repo.func(MECH, 'Mechanism.best_noise_distribution')
+    fi = ctx.repo.nfunc(MECH, 'Mechanism.best_noise_distribution')
     ctx.analysed(fi)
     defs = {}
     for st in walk_shallow(fi.node):
